@@ -645,3 +645,52 @@ def run_specials_sound(v6, bi, di, bj, dj):
         return False
     # sound: equivalent only if both denote the same network (or are the same text); complete for the documented CIDR canonicalisation
     return e == (r1 == r2)
+
+
+# ---- the matcher that decides whether a comparison is on a special-value path: exact length, step by step
+from stix2.equivalence.pattern.transform import specials as _SP   # noqa: E402
+import stix2.patterns as _PT   # noqa: E402
+STEP_ALPHABET = ["key", "values", "name", "value", 0, 3, "*", "x"]
+PATH_PATTERNS = [("key",), ("values", _SP._ANY_IDX, "name"), ("value",), ("values", _SP._ANY, "name"), (_SP._ANY_KEY, "name"), ()]
+
+
+def path_matcher(pi: int) -> bool:
+    """
+    pre: 0 <= pi < 6
+    post: _
+    """
+    pi = pick(pi, 6)
+    res = True
+    with Native():
+        for n in range(1, 5):
+            for steps in itertools.product(STEP_ALPHABET, repeat=n):
+                res = res and _path_case(list(steps), pi)
+    V.reached()
+    return res
+
+
+def _path_case(steps, pi):
+    # a path is a list of key steps, each optionally followed by an index step; an index cannot come first
+    comps, i = [], 0
+    while i < len(steps):
+        st = steps[i]
+        if not isinstance(st, str) or st == "*":
+            return True
+        if i + 1 < len(steps) and (isinstance(steps[i + 1], int) or steps[i + 1] == "*"):
+            comps.append(_PT.ListObjectPathComponent(st, steps[i + 1]))
+            i += 2
+        else:
+            comps.append(_PT.BasicObjectPathComponent(st, False))
+            i += 1
+    got = _SP._path_is(_PT.ObjectPath("t", comps), PATH_PATTERNS[pi])
+    pat = PATH_PATTERNS[pi]
+
+    def one(v, p):
+        if p is _SP._ANY:
+            return True
+        if p is _SP._ANY_IDX:
+            return isinstance(v, int) or v == "*"
+        if p is _SP._ANY_KEY:
+            return isinstance(v, str) and v != "*"
+        return v == p
+    return bool(got) == (len(steps) == len(pat) and all(one(v, p) for v, p in zip(steps, pat)))
